@@ -320,9 +320,9 @@ def oracle_c08(it, case, impl, model):
             if cand:
                 lst.remove(max(cand))
     present = collections.Counter(n[1] for n in impl['nodes'] if n[0] == 0)
-    deletable = set(pb.tr.deletable)
-    diff = {k: (len(announced[k]), present[k]) for k in set(announced) | set(present)
-            if len(announced[k]) != present[k] and (k in deletable or not deletable or len(announced[k]) < present[k])}
+    # no allowance for kinds that have no delete arm in the emitted delete_node: a node of such a kind that was
+    # announced and then discarded is exactly what the property forbids
+    diff = {k: (len(announced[k]), present[k]) for k in set(announced) | set(present) if len(announced[k]) != present[k]}
     if diff and 'return' not in it.setdefault('feats', grammar_features(it['res']['dump'])):
         tok_name, kind_name = names_of(pb)
         return 'created-and-not-deleted callbacks do not match the nodes present: %s' % {kind_name.get(k, k): v for k, v in diff.items()}
